@@ -336,6 +336,126 @@ def services_after_rekey(ctx, tc, ts, case, tag):
         ctx.fail("global-request-refused-after-rekey", dict(case, after=tag), "answer: %r" % (r,))
 
 
+def send_wait_follows_clock(ctx, role):
+    """A re-exchange is held open (the subject's reader is gated) and the clock `Transport._send_user_message` reads is
+    a virtual one.  With the clock frozen a parked sender must stay parked however many 0.1 s slices pass, even with a
+    tiny clear_to_send_timeout; when the clock jumps past the timeout a parked sender must give up at once."""
+    import paramiko.transport as PT
+    from tests._loop import LoopSocket
+
+    gate, other = L.gate_socket(), LoopSocket()
+    gate.link(other)
+    socks = (other, gate) if role == "server" else (gate, other)
+    pair = L.Pair(role, "Transport", True, socks=socks)
+    sub, peer = pair.subject, pair.peer
+    case = {"role": role}
+    real_time = PT.time
+
+    class VirtualTime:
+        def __init__(self):
+            self.now = real_time.time()
+
+        def time(self):
+            return self.now
+
+        def __getattr__(self, name):
+            return getattr(real_time, name)
+
+    passes = {}
+
+    class CountingEvent(threading.Event):
+        def wait(self, timeout=None):
+            r = super().wait(timeout)
+            t = threading.current_thread()
+            passes[t] = passes.get(t, 0) + 1
+            return r
+
+    vt = VirtualTime()
+    try:
+        ch = pair.tc.open_session(timeout=30)
+        sch = pair.ts.accept(30)
+        if sch is None:
+            raise InfraError("accept timed out")
+        sub_ch, peer_ch = (sch, ch) if role == "server" else (ch, sch)
+        if not pair.barrier():
+            raise InfraError("session not usable before the re-exchange")
+        ev = CountingEvent()
+        ev.set()
+        sub.clear_to_send = ev
+        gate.close_gate()
+        sub._send_kex_init()                              # the exchange is open and stays open
+        PT.time = vt
+        # ---- (1) the clock jumps past the timeout: the sender gives up, and promptly
+        sub.clear_to_send_timeout = 30
+        res2 = []
+
+        def sender2():
+            try:
+                sub.global_request("pv-parked@verif", wait=False)
+                res2.append("sent")
+            except Exception as e:
+                res2.append(repr(e))
+
+        t2 = threading.Thread(target=sender2, daemon=True)
+        t2.start()
+        L.wait_until(lambda: passes.get(t2, 0) >= 3 or not t2.is_alive(), 30, "the parked sender to wait")
+        early = list(res2)
+        vt.now += 31
+        base = passes.get(t2, 0)
+        L.wait_until(lambda: not t2.is_alive() or passes.get(t2, 0) >= base + 8, 30, "the sender to notice the clock")
+        case["after_clock_jump"] = list(res2) or "still waiting after %d more slices" % (passes.get(t2, 0) - base)
+        if early:
+            ctx.fail("send-wait-gives-up-before-the-timeout", dict(case, timeout=30),
+                     "the sender ended after <= 3 slices with the clock frozen: %r" % early)
+        elif not res2 or "Key-exchange timed out" not in res2[0]:
+            ctx.fail("send-wait-ignores-the-clock", dict(case, timeout=30),
+                     "clock advanced by 31 s, clear_to_send_timeout 30 s: %r" % (case["after_clock_jump"],))
+        # ---- (2) the clock stands still: a parked sender stays parked, whatever the number of slices
+        sub.clear_to_send_timeout = 0.5
+        res1 = []
+
+        def sender1():
+            try:
+                sub_ch.sendall(b"parked-through-a-long-rekey")
+                res1.append("sent")
+            except Exception as e:
+                res1.append(repr(e))
+
+        t1 = threading.Thread(target=sender1, daemon=True)
+        t1.start()
+        L.wait_until(lambda: passes.get(t1, 0) >= 8 or not t1.is_alive(), 30, "the parked sender to wait 8 slices")
+        case["frozen_clock_after_8_slices"] = list(res1) or "still parked"
+        if res1:
+            ctx.fail("send-wait-gives-up-without-the-clock-moving", dict(case, timeout=0.5),
+                     "clock frozen, %d slices of 0.1 s: %r" % (passes.get(t1, 0), res1))
+        # ---- the exchange goes on: the parked message is delivered
+        PT.time = real_time
+        sub.clear_to_send_timeout = 30
+        gate.gate.set()
+        t1.join(30)
+        if not res1 or res1[0] != "sent":
+            if not any(f["signature"].startswith("send-wait") for f in ctx.fails):
+                ctx.fail("parked-sender-lost-across-rekey", case, repr(res1))
+        elif role:
+            peer_ch.settimeout(20)
+            got = b""
+            try:
+                while len(got) < 27:
+                    x = peer_ch.recv(64)
+                    if not x:
+                        break
+                    got += x
+            except Exception:
+                pass
+            if got != b"parked-through-a-long-rekey":
+                ctx.fail("parked-sender-lost-across-rekey", case, "peer received %r" % got)
+        ctx.sample(case, limit=14)
+    finally:
+        PT.time = real_time
+        gate.gate.set()
+        pair.close()
+
+
 def explicit_rekeys(ctx, rng):
     """re-exchanges asked for by either side in turn; the services check after each one"""
     tc, ts, taps = e2e_pair(None, None)
@@ -642,6 +762,10 @@ def run(ctx):
                 ctx.disagree("compressor installs per key switch", dict(case, request=rq), [int(f[0]), int(f[1])], [io, ii])
     ctx.case(("explicit-rekeys",), True)
     explicit_rekeys(ctx, rng)
+    for role in ("server", "client"):
+        ctx.case(("send-wait-clock", role), True)
+        ctx.dist("send-wait-clock:" + role)
+        send_wait_follows_clock(ctx, role)
     # a re-exchange we start ourselves must wait for an application packet that has already passed the send gate
     for role in ("server", "client"):
         o = L.parked_sender_vs_self_rekey(role)
